@@ -211,6 +211,10 @@ def run(rep, tier):
     rep.rule('R16.6', 'map keys keep their kind: a compound key is turned into a numeric table index only under a whole-string integer test (isInteger/isNumeric); a prefix-parsing conversion alone (strTo, atoi, strtol accept "3rd", "10.0.0.1") does not decide it')
     rep.assume('value equality for nested values depends on run-time shapes (empty tables, numeric-key maps): not decided')
     fb = facts.FactBase(TUS)
+    # the marshalling fault that belongs to this property's values too: a map with a key of another type (C07 R07.10)
+    from ..report import Renamed
+    from . import C07
+    C07.lua_marshalling_faults(Renamed(rep, {'R07.10': 'R16.11'}), fb)
     rep.covered(tus=len(TUS), extracted=fb.extracted, functions=len(fb.funcs))
     l2d = fb.fn('uscxml::getLuaAsData')
     d2l = fb.fn('uscxml::getDataAsLua')
